@@ -35,7 +35,7 @@ def judge(chk, fam, profile, m, s, line):
 def run(chk):
     rng = random.Random(chk.seed)
     depths = [1, 62, 63, 64, 65, 1000, 10000] + ([100000] if chk.tier != 'quick' else [])
-    chk.rule = ('general: corpus programs, 1-3 token mutants, token soup, UTF-8 soup, the two inputs of tests/fuzz.rs, through parse_source / Parser::expression / Parser::parse_stmt (parse + Debug + drop) and parse_file from disk, debug and release builds; '
+    chk.rule = ('general: corpus programs, 1-3 token mutants, token soup, UTF-8 soup, every token sequence up to length 4-6 over small alphabets in 19 syntactic contexts (slice/index, parameter lists, struct fields, control headers, type parameters, interface elements, ...), the two inputs of tests/fuzz.rs, through parse_source / Parser::expression / Parser::parse_stmt (parse + Debug + drop) and parse_file from disk, debug and release builds; '
                 'families: %d deep/long families (one per recursive or iterative construct) at depths %s x {debug, release}; cost: families that re-parse after backtracking at depths 6..14.  '
                 'oracle: the child process answers (tree or error) within the time limit.  non-trivial: distinct inputs; family cases count once per (family, depth, profile).' % (len(families.fams(1)), depths))
     # ---- general streams
@@ -48,6 +48,7 @@ def run(chk):
     except OSError:
         pass
     gen.append(('file', bytes([12, 12, 112, 97, 99, 107, 97, 103, 101, 12, 102, 12, 12, 12, 12, 12, 116, 121, 112, 101, 12, 12, 97, 103, 101, 12, 102, 12, 12, 12, 12, 12, 116, 121, 112, 101, 12, 12, 12, 12, 108, 91, 47, 47, 47, 91, 0, 0, 12, 54, 54, 12, 12, 12, 12, 12, 54, 54, 12, 12, 63, 12, 12, 12, 34]).decode()))
+    gen += [(m, s) for _, m, s in streams.contexts(chk.tier != 'quick')]
     gen = streams.dedup(gen)
     cases = [(dbg[m], s) for m, s in gen] + [('disk', s) for m, s in gen if m == 'file'][:: 4]
     for profile in ('debug', 'release'):
